@@ -556,28 +556,48 @@ def _mangle_private_names(condition: Callable[..., Any], node: ast.AST) -> None:
 
     names = _collect_names_of_code(code=code)
 
-    mangled = dict()  # type: Dict[str, str]
-    for name in names:
+    # Private names as they are written in the source of the condition
+    private_nodes = [
+        descendant
+        for descendant in ast.walk(node)
+        if (
+            isinstance(descendant, ast.Attribute)
+            and descendant.attr.startswith("__")
+            and not descendant.attr.endswith("__")
+        )
+        or (
+            isinstance(descendant, ast.Name)
+            and descendant.id.startswith("__")
+            and not descendant.id.endswith("__")
+        )
+    ]
+
+    for private_node in private_nodes:
+        private = (
+            private_node.attr
+            if isinstance(private_node, ast.Attribute)
+            else private_node.id  # type: ignore
+        )
+
+        if private in names:
+            # The name was not mangled (the condition was not written in the body of a class).
+            continue
+
         # A mangled name is ``_`` + name of the class stripped of the leading underscores + the private name.
-        if len(name) < 2 or name[0] != "_" or name[1] == "_":
-            continue
+        candidates = [
+            name
+            for name in names
+            if name.endswith(private)
+            and len(name) > len(private) + 1
+            and name[0] == "_"
+            and name[1] != "_"
+        ]
 
-        i = name.find("__", 1)
-        if i == -1:
-            continue
-
-        private = name[i:]
-        if not private.endswith("__") and private not in names:
-            mangled[private] = name
-
-    if not mangled:
-        return
-
-    for descendant in ast.walk(node):
-        if isinstance(descendant, ast.Attribute) and descendant.attr in mangled:
-            descendant.attr = mangled[descendant.attr]
-        elif isinstance(descendant, ast.Name) and descendant.id in mangled:
-            descendant.id = mangled[descendant.id]
+        if len(candidates) == 1:
+            if isinstance(private_node, ast.Attribute):
+                private_node.attr = candidates[0]
+            else:
+                private_node.id = candidates[0]  # type: ignore
 
 
 def repr_values(condition: Callable[..., bool], lambda_inspection: Optional[ConditionLambdaInspection],
